@@ -2,6 +2,7 @@ package rules
 
 import (
 	"fmt"
+	"go/token"
 	"go/types"
 	"strings"
 
@@ -184,6 +185,10 @@ func runC02(c *core.Ctx) {
 	// ---- R6 (shared with C17-R1): Transport.Flush of every shipped wrapper really drains its buffered writer
 	c.Rule("R6", "every wrapper variant that owns a bufio.Writer flushes that writer in Flush and returns its error (nothing stays parked in a transport buffer)", 2)
 	importObligations(c, runC17, "R6", func(o *core.Obligation) bool { return strings.Contains(o.Key, "/Flush/") })
+
+	// ---- R7 the sender can always make progress: its batch holds at least one packet
+	c.Rule("R7", "the sender's batch capacity is at least 1 whenever the queue exists (otherwise the drain loop never dequeues and spins)", 1)
+	runBatchCapacity(c, e, "R7")
 
 	// ---- R5 census
 	for _, fn := range p.Funcs {
@@ -484,5 +489,152 @@ func ruleEnqueueRingsBell(c *core.Ctx, e *ev, R string) {
 				}
 			})
 		}
+	}
+}
+
+// lowerBoundGE1: a conservative lower bound of integer expression v, given that parameter `pos` is >= 1.
+// Returns (bound, known).
+func lowerBound(v ssa.Value, fn *ssa.Function, pos int, d int) (int64, bool) {
+	if d > 8 {
+		return 0, false
+	}
+	v = stripConv(v)
+	if k, ok := core.ConstInt(v); ok {
+		return k, true
+	}
+	if core.ParamOf(fn, v) == pos {
+		return 1, true
+	}
+	switch x := v.(type) {
+	case *ssa.BinOp:
+		a, oka := lowerBound(x.X, fn, pos, d+1)
+		b, okb := lowerBound(x.Y, fn, pos, d+1)
+		switch x.Op {
+		case token.ADD:
+			if oka && okb {
+				return a + b, true
+			}
+		case token.QUO:
+			if k, isC := core.ConstInt(x.Y); isC && k > 0 && oka && a >= 0 {
+				return a / k, true
+			}
+		case token.MUL:
+			if oka && okb && a >= 0 && b >= 0 {
+				return a * b, true
+			}
+		case token.SHR:
+			if oka && a >= 0 {
+				return 0, true
+			}
+		}
+	case *ssa.Phi:
+		min, ok := int64(0), false
+		for _, e := range x.Edges {
+			b, okb := lowerBound(e, fn, pos, d+1)
+			if !okb {
+				return 0, false
+			}
+			if !ok || b < min {
+				min, ok = b, true
+			}
+		}
+		return min, ok
+	case *ssa.Call:
+		if args, ok := core.IsBuiltinCall(x, "min"); ok {
+			m, okm := int64(0), false
+			for _, a := range args {
+				b, okb := lowerBound(a, fn, pos, d+1)
+				if !okb {
+					return 0, false
+				}
+				if !okm || b < m {
+					m, okm = b, true
+				}
+			}
+			return m, okm
+		}
+		if args, ok := core.IsBuiltinCall(x, "max"); ok {
+			best, okb2 := int64(0), false
+			for _, a := range args {
+				if b, okb := lowerBound(a, fn, pos, d+1); okb && (!okb2 || b > best) {
+					best, okb2 = b, true
+				}
+			}
+			return best, okb2
+		}
+	}
+	return 0, false
+}
+
+func runBatchCapacity(c *core.Ctx, e *ev, R string) {
+	p, r := c.P, e.r
+	// the batch: the slice field of the channel whose (re-sliced) load feeds the Writev argument in the sender
+	S := r.Sender
+	var batchF *types.Var
+	core.AllInstrs(S, func(in ssa.Instruction) {
+		if !e.transportInvoke(in, "Writev") {
+			return
+		}
+		for v := range web(core.CallCommon(in).Args[0]) {
+			if sl, ok := v.(*ssa.Slice); ok {
+				if f, _ := core.FieldOf(sl.X); f != nil {
+					batchF = f
+				}
+			}
+		}
+	})
+	c.Instance(R)
+	if batchF == nil {
+		// batch allocated locally per run: capacity expression in the sender itself
+		c.Note("sender batch is not a channel field; capacity rule looks at make() in the sender")
+	}
+	found := false
+	for _, fn := range p.Funcs {
+		if fn.Parent() != nil {
+			continue
+		}
+		core.AllInstrs(fn, func(in ssa.Instruction) {
+			mk, ok := in.(*ssa.MakeSlice)
+			if !ok {
+				return
+			}
+			// flows into the batch field?
+			flows := false
+			for v := range taint(mk) {
+				if v.Referrers() == nil {
+					continue
+				}
+				for _, ref := range *v.Referrers() {
+					if st, ok := ref.(*ssa.Store); ok {
+						if f, _ := core.FieldOf(st.Addr); f == batchF && batchF != nil {
+							flows = true
+						}
+					}
+				}
+			}
+			if !flows {
+				return
+			}
+			found = true
+			// which parameter is the queue size (the one used for make(chan))
+			pos := -1
+			core.AllInstrs(fn, func(x ssa.Instruction) {
+				if mc, ok := x.(*ssa.MakeChan); ok && isChanOfBytesT(mc.Type()) {
+					pos = core.ParamOf(fn, mc.Size)
+				}
+			})
+			lb, known := lowerBound(mk.Cap, fn, pos, 0)
+			switch {
+			case !known:
+				c.Unk(R, "batch-capacity/"+core.FName(fn), p.InstrPos(mk), "lower bound of the sender's batch capacity not derivable from the queue-size parameter (expression not recognised)")
+			default:
+				c.Check(lb >= 1, R, "batch-capacity/"+core.FName(fn), p.InstrPos(mk), "batch capacity >= 1 for every queue size >= 1", fmt.Sprintf("for the smallest queue size the sender's batch capacity is %d: the drain loop (len < cap) never dequeues, the sender spins and accepted payloads are never handed to the transport", lb))
+			}
+		})
+	}
+	if !found && batchF != nil {
+		c.Unk(R, "batch-capacity", "", "allocation of the sender's batch slice not found")
+	} else if !found {
+		c.OK(R, "batch-capacity", "", "no pre-allocated batch field")
 	}
 }
